@@ -167,6 +167,9 @@ class ExecutionContext:
                         second = [second]
                     combined = first + second
                     result = [combined[i] for i in indices]
+                    if instruction.Type.IsScalar():
+                        # A one-component swizzle is a scalar, not a vector
+                        result = result[0]
                     localScope[ref] = result
                 case LinearIR.OpCode.STORE_ARRAY:
                     ref = instruction.Reference
